@@ -355,56 +355,67 @@ def _run_pretty(pretty_fn, value, ctx, trailing_comment=None):
 
     ctx.start_visit(value)
 
-    if trailing_comment:
-        try:
-            doc = pretty_fn(
-                value,
-                ctx,
-                trailing_comment=trailing_comment
-            )
-        except TypeError as e:
-            # This is probably because pretty_fn does not support
-            # trailing_comment, but let's make sure.
-            sig = inspect.signature(pretty_fn)
+    try:
+        if trailing_comment:
             try:
-                sig.bind(value, ctx, trailing_comment=trailing_comment)
-            except TypeError:
-                fnname = '{}.{}'.format(
-                    pretty_fn.__module__,
-                    pretty_fn.__qualname__
+                doc = pretty_fn(
+                    value,
+                    ctx,
+                    trailing_comment=trailing_comment
                 )
-                warnings.warn(
-                    "The pretty printer for {}, {}, does not support rendering "
-                    "trailing comments. It will not show up in output.".format(
-                        type(value).__name__, fnname
+            except TypeError as e:
+                # This is probably because pretty_fn does not support
+                # trailing_comment, but let's make sure.
+                sig = inspect.signature(pretty_fn)
+                try:
+                    sig.bind(value, ctx, trailing_comment=trailing_comment)
+                except TypeError:
+                    fnname = '{}.{}'.format(
+                        pretty_fn.__module__,
+                        pretty_fn.__qualname__
                     )
-                )
-                doc = pretty_fn(value, ctx)
-            else:
+                    warnings.warn(
+                        "The pretty printer for {}, {}, does not support "
+                        "rendering trailing comments. It will not show up "
+                        "in output.".format(
+                            type(value).__name__, fnname
+                        )
+                    )
+                    try:
+                        doc = pretty_fn(value, ctx)
+                    except Exception as e:
+                        _warn_about_bad_printer(pretty_fn, value, exc=e)
+                        doc = repr(value)
+                else:
+                    _warn_about_bad_printer(pretty_fn, value, exc=e)
+                    doc = repr(value)
+            except Exception as e:
                 _warn_about_bad_printer(pretty_fn, value, exc=e)
                 doc = repr(value)
-    else:
-        try:
-            doc = pretty_fn(value, ctx)
-        except Exception as e:
-            _warn_about_bad_printer(pretty_fn, value, exc=e)
-            doc = repr(value)
+        else:
+            try:
+                doc = pretty_fn(value, ctx)
+            except Exception as e:
+                _warn_about_bad_printer(pretty_fn, value, exc=e)
+                doc = repr(value)
 
-    if not (
-        isinstance(doc, str) or
-        isinstance(doc, Doc)
-    ):
-        fnname = '{}.{}'.format(
-            pretty_fn.__module__,
-            pretty_fn.__qualname__
-        )
-        raise ValueError(
-            'Functions decorated with register_pretty must return '
-            'an instance of str or Doc. {} returned '
-            '{} instead.'.format(fnname, repr(doc))
-        )
-
-    ctx.end_visit(value)
+        if not (
+            isinstance(doc, str) or
+            isinstance(doc, Doc)
+        ):
+            fnname = '{}.{}'.format(
+                pretty_fn.__module__,
+                pretty_fn.__qualname__
+            )
+            raise ValueError(
+                'Functions decorated with register_pretty must return '
+                'an instance of str or Doc. {} returned '
+                '{} instead.'.format(fnname, repr(doc))
+            )
+    finally:
+        # Also on the way out with an exception, so that a later
+        # occurrence of the same object is not mistaken for a cycle.
+        ctx.end_visit(value)
 
     return doc
 
